@@ -195,6 +195,10 @@ static void explore(Result& R) {
     std::vector<Sub> subs;
     // (h) first: isolated sub-checks fork from a process that has not run the simulation code yet
     if (CONTACT_MODEL_INDEX == 1 && functional) for (int order : {0, 1}) { Sub h{"run_iteration x2, two cell types with and without bending rigidity, order " + std::to_string(order) + ", isolated processes, T=2", 2, th ? 2 : 1, [order] { return scenario_mixed_types(order, 2); }, nullptr, hash_world, "@serial"}; h.isolated = true; subs.push_back(h); }
+    if (CONTACT_MODEL_INDEX == 1) {
+    // (b') a cell whose division fails, at every place in the list; every execution in its own process, so that an error that ends the process ends one execution
+    for (int kind : {2, 0, 5, 1}) for (int where = 0; where < 3; where++) { if (!th && kind != 2 && !(kind == 0 && where == 1)) continue; Sub d{"divide-with-a-cell-that-cannot-divide kind=" + std::to_string(kind) + " place=" + std::to_string(where) + ", isolated processes, T=2", 2, th ? 2 : 1, [kind, where] { return scenario_divide_awkward(kind, where); }, nullptr, hash_list, "@serial"}; d.isolated = functional; subs.push_back(d); }
+    }
     // (g) (early: cheap, and decisive for the identity clauses)
     if (CONTACT_MODEL_INDEX == 1) {
     for (int mask : {1, 2, 3}) { if (!th && mask == 3) continue; subs.push_back({"solver-iteration-with-division ready=" + std::to_string(mask) + " T=2", 2, th ? 1 : 0, [mask] { return scenario_solver_division(mask); }, nullptr, hash_world, "@serial"}); }
@@ -212,8 +216,6 @@ static void explore(Result& R) {
     for (int T : {2, 3}) subs.push_back({"mesh_writer::write, three cells with free slots, T=" + std::to_string(T), T, th ? 2 : 1, [] { return scenario_write(3); }, nullptr, nullptr, "@serial"});
     // (b)
     for (int nc : {3, 4}) for (int mask : {3, 5, 6, 7}) for (int T : {2, 3}) { if (!th && (nc == 4 || (T == 3 && mask != 7))) continue; subs.push_back({"divide cells=" + std::to_string(nc) + " ready=" + std::to_string(mask) + " T=" + std::to_string(T), T, th ? 3 : 2, [nc, mask] { return scenario_divide(nc, mask); }, nullptr, hash_list, "@serial"}); }
-    // (b') a cell whose division fails, at every place in the list; every execution in its own process, so that an error that ends the process ends one execution
-    for (int kind : {2, 0, 5, 1}) for (int where = 0; where < 3; where++) { if (!th && kind != 2 && !(kind == 0 && where == 1)) continue; Sub d{"divide-with-a-cell-that-cannot-divide kind=" + std::to_string(kind) + " place=" + std::to_string(where) + ", isolated processes, T=2", 2, th ? 2 : 1, [kind, where] { return scenario_divide_awkward(kind, where); }, nullptr, hash_list, "@serial"}; d.isolated = functional; subs.push_back(d); }
     // (a)
     for (int T : {2, 3}) { if (!th && T == 3) continue; subs.push_back({"run_iteration x2, three non-interacting cells, T=" + std::to_string(T), T, th ? 2 : 1, [] { return scenario_iterations(2); }, nullptr, hash_world, "@serial"}); }
     if (th) subs.push_back({"run_iteration x2, three non-interacting cells, T=4", 4, 1, [] { return scenario_iterations(2); }, nullptr, hash_world, "@serial"});
